@@ -832,8 +832,9 @@ func extractMarshal(m *model.Msg) (*marshalModel, error) {
 				return nil, wrapPos(m, is.Pos(), err)
 			}
 			kind := "field"
-			if c == "nonnil(x.unknownFields)" {
-				kind = "unknown"
+			if c == "nonnil(x.unknownFields)" || c == "nonempty(x.unknownFields)" {
+				// both guards only skip copying zero bytes
+				kind, c = "unknown", "nonnil(x.unknownFields)"
 			}
 			mm.Blocks = append(mm.Blocks, &encBlock{Kind: kind, Str: "if(" + c + "){" + render(out.ws) + "}", Pos: is.Pos(), DetInfo: w.det, DetOK: w.detOK})
 			continue
@@ -845,6 +846,16 @@ func extractMarshal(m *model.Msg) (*marshalModel, error) {
 			}
 			mm.Blocks = append(mm.Blocks, blk)
 			continue
+		}
+		// the unknown bytes copied without a guard: i -= len(x.unknownFields); copy(dAtA[i:], x.unknownFields)
+		// (copying a nil slice copies nothing, so this equals the guarded form)
+		if pos+1 < len(list) {
+			out := &wout{}
+			if err := w.stmts(list[pos:pos+2], out, nil); err == nil && render(out.ws) == "raw(x.unknownFields)" {
+				mm.Blocks = append(mm.Blocks, &encBlock{Kind: "unknown", Str: "if(nonnil(x.unknownFields)){raw(x.unknownFields)}", Pos: s.Pos()})
+				pos++
+				continue
+			}
 		}
 		return nil, wrapPos(m, s.Pos(), und("top-level statement %s", nodeStr(s)))
 	}
